@@ -1,11 +1,15 @@
 import MJ.Proofs.MetaSim
+import MJ.Proofs.MetaNested
+import MJ.Gen.Tables
 /-!
 # C18 — `undeclared_variables` never omits a variable the template reads
 
 Model: `MJ/Model/Meta.lean` (`findUndeclared` / `findUndeclaredNested` = `compiler/meta.rs`
 after the `fix:` commits, `reads` = name resolution of the generated code under an arbitrary
-choice tree, with `break`/`continue`, recursive loops re-entered through `loop(..)`, blocks
-rendered in place and through `self.name()`, re-entries nested to any depth `d`).
+choice tree: branches, iteration counts, `break`/`continue`, recursive loops re-entered through
+`loop(..)`, blocks rendered in place and through `self.name()`, macro and call-block bodies,
+the name expressions of include/import/extends, re-entries nested to any depth `d`, renders
+that fail after any number of look-ups).
 -/
 namespace MJ.C18
 open MJ.Meta
@@ -15,83 +19,86 @@ def C18_full : Prop :=
   ∀ (t : List Stmt) (cs : List Ch) (d : Nat) (x : String),
     x ∈ reads t cs d → x ∈ findUndeclared t
 
-/-- The whole fragment (loops with filter/else/recursion/break/continue, conditionals,
-with/set/set-block/filter-block/autoescape, blocks and `self.name()`, macros, call blocks,
-do), every choice tree, every nesting depth of re-entries: a key the render asks the context
-for is reported by the analysis, or it is the name of a macro whose own closure analysis
-mentions that name (the known finding: `Enclose(name)` runs before `StoreLocal(name)`). -/
-theorem reads_subset_undeclared_or_selfref (t : List Stmt) (cs : List Ch) (d : Nat) (x : String)
-    (hx : x ∈ reads t cs d) : x ∈ findUndeclared t ∨ x ∈ selfRefsL t := by
+/-- Every template, every choice tree, every nesting depth of re-entries, failing renders
+included: a key the render asks the context for is reported by the analysis. -/
+theorem reads_subset_undeclared : C18_full := by
+  intro t cs d x hx
   have hflat : (walkList St.init t).nested = none := (step_walkList t St.init).nn rfl
-  rcases template_sound t St.init rfl cs d x hx with h | h
-  · exact Or.inl ((reported_none hflat x).1 h)
-  · exact Or.inr h
+  exact (reported_none hflat x).1 (template_sound t St.init rfl cs d x hx)
 
-example : ∃ t cs d x, x ∈ reads t cs d ∧ x ∈ findUndeclared t ∧ selfRefsL t ≠ [] :=
-  ⟨[.macro "m" [] [] [.emit (.var "m"), .emit (.var "y")]], [], 0, "y",
-    by decide, by decide, by decide⟩
-
-/-- Soundness for templates without self-referential macros. -/
-theorem reads_subset_undeclared (t : List Stmt) (hself : selfRefsL t = [])
-    (cs : List Ch) (d : Nat) (x : String) (hx : x ∈ reads t cs d) : x ∈ findUndeclared t := by
-  rcases reads_subset_undeclared_or_selfref t cs d x hx with h | h
-  · exact h
-  · rw [hself] at h; cases h
-
-/-- hypotheses satisfiable by a template with a macro, a closure, shadowing and a real read:
-`{% set x = x %}{% macro m(a, b=q) %}{{ a }}{{ x }}{{ z }}{% endmacro %}{{ m(y) }}` -/
-example : ∃ t cs, selfRefsL t = [] ∧ reads t cs 0 = ["x", "z", "q", "y"]
-    ∧ findUndeclared t = ["y", "z", "q", "x"] :=
+/-- a recursive macro (its own name is looked up at the declaration and now reported), a
+closure, shadowing:
+`{% set x = x %}{% macro m(a, b=q) %}{{ a }}{{ x }}{{ z }}{{ m() }}{% endmacro %}{{ m(y) }}` -/
+example : ∃ t cs, reads t cs 0 = ["x", "m", "z", "q", "y"]
+    ∧ findUndeclared t = ["y", "m", "z", "q", "x"] :=
   ⟨[.set (.var "x") (.var "x"),
-    .macro "m" ["a", "b"] [.var "q"] [.emit (.var "a"), .emit (.var "x"), .emit (.var "z")],
+    .macro "m" ["a", "b"] [.var "q"]
+      [.emit (.var "a"), .emit (.var "x"), .emit (.var "z"), .emit (.call (.var "m") [])],
     .emit (.call (.var "m") [.pos (.var "y")])],
-   [.default, .mk 0 [[]] [], .default], by decide, by decide, by decide⟩
+   [.default, .mk 0 [[]] [] 0, .default], by decide, by decide⟩
 
 /-- a recursive loop re-entered from inside a `with`, a `continue`, a block rendered through
-`self.b()` in front of the assignment it seems to rely on:
+`self.b()` in front of the assignment it seems to rely on, a dynamic include, an import alias:
 `{% for a in y recursive %}{% if c %}{% continue %}{% endif %}{% with w = 1 %}{{ loop(a) }}
- {{ q }}{% endwith %}{% endfor %}{{ self.b() }}{% set x = 1 %}{% block b %}{{ x }}{% endblock %}` -/
-example : ∃ t cs, selfRefsL t = [] ∧ reads t cs 1 = ["y", "c", "c", "q", "x"]
-    ∧ findUndeclared t = ["x", "q", "c", "y"] :=
+ {{ q }}{% endwith %}{% endfor %}{{ self.b() }}{% set x = 1 %}{% block b %}{{ x }}{% endblock %}
+ {% include tpl %}{% import lib as helpers %}{{ helpers }}` -/
+example : ∃ t cs, reads t cs 1 = ["y", "c", "c", "q", "x", "tpl", "lib"]
+    ∧ findUndeclared t = ["lib", "tpl", "x", "q", "c", "y"] :=
   ⟨[.forLoop (.var "a") (.var "y") none true
       [.ifCond (.var "c") [.cont] [],
        .withBlock [(.var "w", .const)]
          [.emit (.call (.var "loop") [.pos (.var "a")]), .emit (.var "q")]] [],
     .emit (.call (.getattr (.var "self") "b") []),
     .set (.var "x") .const,
-    .block "b" [.emit (.var "x")]],
-   [.mk 2 [[.mk 0 [] [], .mk 0 [[.mk 0 [] [.mk 0 [[.mk 1 [[]] []]] []], .default]] []]] [],
-    .mk 0 [] [.mk 0 [[]] []], .default, .mk 0 [[]] []],
-   by decide, by decide, by decide⟩
+    .block "b" [.emit (.var "x")],
+    .include (.var "tpl"),
+    .importAs (.var "lib") (.var "helpers"),
+    .emit (.var "helpers")],
+   [.mk 2 [[.mk 0 [] [] 0,
+            .mk 0 [[.mk 0 [] [.mk 0 [[.mk 1 [[]] [] 0]] [] 0] 0, .default]] [] 0]] [] 0,
+    .mk 0 [] [.mk 0 [[]] [] 0] 0, .default, .mk 0 [[]] [] 0],
+   by decide, by decide⟩
 
-/-- Phase 1: the macro-free fragment. -/
-theorem reads_subset_undeclared_partial (t : List Stmt) (hno : noMacroL t = true)
-    (cs : List Ch) (d : Nat) (x : String) (hx : x ∈ reads t cs d) : x ∈ findUndeclared t :=
-  reads_subset_undeclared t (noMacroL_selfRefsL t hno) cs d x hx
+/-- a render that fails in the middle of the second statement (after one of its look-ups)
+is an execution of the model like any other:
+`{{ a }}{{ b ~ c }}{{ d }}` failing after `b` -/
+example : ∃ t cs, reads t cs 0 = ["a", "b"] ∧ findUndeclared t = ["d", "c", "b", "a"] :=
+  ⟨[.emit (.var "a"), .emit (.binop (.var "b") (.var "c")), .emit (.var "d")],
+   [.default, .mk 0 [] [] 2], by decide, by decide⟩
 
-/-- hypotheses satisfiable with shadowing in every construct:
-`{% for x in x %}{{ x }}{{ loop }}{% endfor %}{% with a = a %}{{ a }}{% endwith %}
- {% if c %}{% set y = 1 %}{% endif %}{{ y }}{{ foo[q:] }}` -/
-example : ∃ t cs, noMacroL t = true ∧ reads t cs 0 = ["x", "a", "c", "y", "foo", "q"]
-    ∧ findUndeclared t = ["q", "foo", "y", "c", "a", "x"] :=
-  ⟨[.forLoop (.var "x") (.var "x") none false [.emit (.var "x"), .emit (.var "loop")] [],
-    .withBlock [(.var "a", .var "a")] [.emit (.var "a")],
-    .ifCond (.var "c") [.set (.var "y") .const] [],
-    .emit (.var "y"),
-    .emit (.slice (.var "foo") (some (.var "q")) none none)],
-   [.mk 2 [[]] [], .default, .default], by decide, by decide, by decide⟩
+/-- The assumption "an aborted render performs a prefix of the look-ups" as a theorem of the
+model: cutting a statement short (`ab = k + 1`) yields a prefix of the look-ups of the same
+choices without the failure. -/
+theorem abort_reads_prefix (K : Reenter) (rc : RC) (bt : BT) (top : Frame) (below : List Frame)
+    (n : Nat) (subs : List (List Ch)) (reqs : List Ch) (k : Nat) (rest : List Ch)
+    (s : Stmt) (ss : List Stmt) :
+    (execList K rc bt top below (Ch.mk n subs reqs (k + 1) :: rest) (s :: ss)).reads <+:
+      (execList K rc bt top below (Ch.mk n subs reqs 0 :: rest) (s :: ss)).reads := by
+  have hexec : ∀ a, exec K rc bt top below (Ch.mk n subs reqs a) s =
+      exec K rc bt top below (Ch.mk n subs reqs 0) s := by
+    intro a
+    cases s <;> simp [exec, Ch.n, Ch.subs, Ch.sub0]
+  simp only [execList, List.headD_cons, Ch.ab, Ch.reqs, List.tail_cons, hexec (k + 1),
+    Nat.add_one_ne_zero, ne_eq, not_false_eq_true, if_true, not_true_eq_false, if_false,
+    Nat.add_sub_cancel]
+  by_cases hs : (exec K rc bt top below (Ch.mk n subs reqs 0) s).stopped = true
+  · simp only [hs, if_true]
+    exact List.take_prefix _ _
+  · simp only [hs]
+    exact (List.take_prefix _ _).trans (by
+      rw [← List.append_assoc]; exact List.prefix_append _ _)
+
+example : (execList (reenter 0) [] [] [] [] [Ch.mk 0 [] [] 2] [Stmt.emit (.binop (.var "b") (.var "c"))]).reads
+    = ["b"] := by decide
 
 /-- The `nested = true` report: every key the render asks the context for is the root of a
-reported dotted name (`(x, attrs)` stands for `x.attr₁.attr₂…`), with the same exception. -/
-theorem reads_root_of_nested_or_selfref (t : List Stmt) (cs : List Ch) (d : Nat) (x : String)
-    (hx : x ∈ reads t cs d) :
-    (∃ attrs, (x, attrs) ∈ findUndeclaredNested t) ∨ x ∈ selfRefsL t := by
+reported dotted name (`(x, attrs)` stands for `x.attr₁.attr₂…`). -/
+theorem reads_root_of_nested (t : List Stmt) (cs : List Ch) (d : Nat) (x : String)
+    (hx : x ∈ reads t cs d) : ∃ attrs, (x, attrs) ∈ findUndeclaredNested t := by
   obtain ⟨n, hn⟩ := (step_walkList t St.initNested).sn (n := []) rfl
-  rcases template_sound t St.initNested rfl cs d x hx with h | h
-  · left
-    simp only [St.reported, hn] at h
-    simpa [findUndeclaredNested, hn] using h
-  · exact Or.inr h
+  have h := template_sound t St.initNested rfl cs d x hx
+  simp only [St.reported, hn] at h
+  simpa [findUndeclaredNested, hn] using h
 
 /-- `{{ foo.bar.baz }}{% set x = cfg.a %}{{ x.y }}{{ cfg }}`: the report is
 `foo.bar.baz`, `cfg.a`, `cfg`; the render asks for `foo` and `cfg` -/
@@ -102,21 +109,50 @@ example : ∃ t cs, reads t cs 0 = ["foo", "cfg", "cfg"]
     .emit (.getattr (.var "x") "y"),
     .emit (.var "cfg")], [], by decide, by decide⟩
 
-theorem reads_root_of_nested (t : List Stmt) (hself : selfRefsL t = [])
-    (cs : List Ch) (d : Nat) (x : String) (hx : x ∈ reads t cs d) :
-    ∃ attrs, (x, attrs) ∈ findUndeclaredNested t := by
-  rcases reads_root_of_nested_or_selfref t cs d x hx with h | h
-  · exact h
-  · rw [hself] at h; cases h
+/-- … and every dotted name of the nested report is an attribute path that occurs in the
+template: a variable followed by exactly these attribute look-ups. -/
+theorem nested_reported_are_paths (t : List Stmt) :
+    ∀ l ∈ findUndeclaredNested t, l ∈ leavesL t :=
+  nested_subset_leaves t
 
-example : selfRefsL [Stmt.emit (.getattr (.var "foo") "bar")] = [] := by decide
+example : leavesL [Stmt.emit (.getattr (.getattr (.var "foo") "bar") "baz"),
+    .set (.var "x") (.getattr (.var "cfg") "a")] =
+    [("foo", ["bar", "baz"]), ("cfg", ["a"])] := by decide
 
-/-- The full statement fails on the current code: a macro that mentions its own name makes the
-declaration ask the context for that name, and the analysis (rightly) does not report it. -/
-theorem C18_counterexample : ¬ C18_full := by
-  intro h
-  have := h [.macro "m" [] [] [.emit (.var "m")]] [] 0 "m" (by decide)
-  revert this
+/-- The assumption "macro bodies see only their closure frame, their locals and the base
+context" as a theorem: in the frames `eval_macro` builds — `[closure ∪ caller, base]` — a
+macro's prologue and body ask the render context for nothing (in a template without blocks;
+with blocks: only what the blocks ask for): every free name was captured at the declaration. -/
+theorem macro_body_asks_nothing (args : List String) (defaults : List Expr) (body : List Stmt)
+    (kid : List Ch) (d : Nat) :
+    (bindArgs (macroFrame args defaults body) [[]] args.reverse defaults.reverse).2 ++
+      (execList (reenter d) [] []
+        (bindArgs (macroFrame args defaults body) [[]] args.reverse defaults.reverse).1
+        [[]] kid body).reads = [] := by
+  apply List.eq_nil_iff_forall_not_mem.2
+  intro x hx
+  have hctx : Ctx [] (fun _ => False) (fun _ => False) :=
+    ⟨fun _ h => h, fun _ hb => (by cases hb)⟩
+  exact macro_body_reads (kok_reenter d) args defaults body (sim_walkList body) hctx kid x hx
+
+/-- `{% macro m(a, b=q) %}{{ a }}{{ x }}{{ caller() }}{% endmacro %}`: closure `q`, `x`;
+`caller` is a local -/
+example : closureNames ["a", "b"] [.var "q"]
+      [.emit (.var "a"), .emit (.var "x"), .emit (.call (.var "caller") [])] = ["x", "q"]
+    ∧ macroFrame ["a", "b"] [.var "q"]
+      [.emit (.var "a"), .emit (.var "x"), .emit (.call (.var "caller") [])] = ["caller", "x", "q"] :=
+  ⟨by decide, by decide⟩
+
+/-- The assumption "expressions bind no names", tied to the source: the code
+`compile_expr` and the functions it calls emit (regenerated from `codegen.rs`) contains none
+of the instructions that change frames or locals; the only way out of expression code is the
+macro expression of a call block. -/
+theorem expression_code_binds_nothing :
+    (∀ i ∈ MJ.Gen.c18ExprInstructions, i ∉ MJ.Gen.c18BindingInstructions) ∧
+    (∀ f ∈ MJ.Gen.c18ExprCallees, f ∈ MJ.Gen.c18ExprFunctions ∨ f = "compile_macro_expression") := by
+  decide
+
+example : "Lookup" ∈ MJ.Gen.c18ExprInstructions ∧ "StoreLocal" ∈ MJ.Gen.c18BindingInstructions := by
   decide
 
 /-- The analysis cannot hit `unwrap()` on an empty scope stack (either mode). -/
